@@ -161,7 +161,7 @@ def norm(path):
     prev = None
     while prev != path:
         prev = path
-        path = _GEN.sub("", path)
+        path = _GEN.sub(lambda m: m.group(0) if m.group(0).startswith("::<impl ") else "", path)
     return _PRELUDE.get(path, path)
 
 
